@@ -995,12 +995,13 @@ DIRECTED = {
   ],
   "srt": ["1\n00:00:01,000 --> 00:00:02,000\n<font color>x</font>\n", "1\n00:00:01,000 --> 00:00:02,000\n<![ x\n", "1\n00:00:01,000 --> 00:00:02,000\na</b></b></b>b<i>c\n",
           "1\n00:00:01,000 --> 00:00:02,000\n\n2\n00:00:03,000 --> 00:00:04,000\n\n"],
-  "vtt": [_CUE + "</b></b></b></b>\n", _CUE + "</b></b></b>x\n", _CUE + "</b>x\n", _CUE + "</b></b>x\n", _CUE + "</b><b>x\n", _CUE + "</b></b><b>x\n", _CUE + "</b><00:00:01.500>x\n",
+  "vtt": [_CUE + "</b></b></b></b>\n", _CUE + "</b></b></b>x\n", _CUE + "</b>x\n", _CUE + "</b></b>x\n", _CUE + "</b><b>x\n", _CUE + "</b></b><b>x\n", _CUE + "</b><00:00:01.500>x\n", _CUE + "</b></b><00:00:01.500>x\n",
           _CUE + "<rrt></r><ruby><rt>\nx\n", _CUE + "<rt>x\n", _CUE + "<ruby><ruby>x\n", _CUE + "<b><ruby>x<rt>y</rt></ruby></b>\n", _CUE + "<ruby>a<b>b</b><rt>y</rt></ruby>\n",
           _CUE + "<ruby>a\nb<rt>y</rt></ruby>\n", _CUE + "<ruby>a<00:00:01.500>b<rt>y</rt></ruby>\n", _CUE + "<ruby>a<rt>y</rt></ruby>\n",
           "WEBVTT\n\n00:00:01.000 --> 00:00:02.000 size:" + "9" * 400 + "%\nx\n", "WEBVTT\n\n00:00:01.000 --> 00:00:02.000\n\n00:00:03.000 --> 00:00:04.000\n\n"],
   "scc": [("Scenarist_SCC V1.0\n\n00:00:01:00\t9425 9425 94ad 94ad c1c2\n\n00:00:02:00\t942c 942c 1320 1320\n", None), ("Scenarist_SCC V1.0\n\n00:00:01:00\t9723 9723 c8e9\n", None),
-          ("Scenarist_SCC V1.0\n\n00:00:01:00\t9429 9429 9723 9723 c8e9\n", None), ("Scenarist_SCC V1.0\n\n00:00:01:00\t94a1 94a1\n", None)],
+          ("Scenarist_SCC V1.0\n\n00:00:01:00\t9429 9429 9723 9723 c8e9\n", None), ("Scenarist_SCC V1.0\n\n00:00:01:00\t94a1 94a1\n", None),
+          ("Scenarist_SCC V1.0\n\n00:00:05:00\t9429 9429 94ec 94ec\n\n00:00:02:00\tc1c2 2080\n", None)],
   "stl": [(F.gsi_block(DSC=b"0", MNR=b"00") + F.tti_block(tf=b"x"), {"max_row_count": "MNR"}), (F.gsi_block(DSC=b" ", MNR=b"00") + F.tti_block(vp=1, tf=b"x"), {"max_row_count": "MNR"}),
           (F.gsi_block(TNB=b"00000") + F.tti_block(tf=b"x"), None), (F.gsi_block(TNB=b"     ") + F.tti_block(tf=b"x"), None),
           (F.gsi_block() + F.tti_block(cs=2, tf=b"x") + F.tti_block(sn=1, cs=3, tf=b"y"), None)],
@@ -1234,7 +1235,7 @@ def make_input(seed, fmt, k):
 
 
 SHARE = {"ttml": 0.36, "vtt": 0.2, "srt": 0.12, "scc": 0.14, "stl": 0.18}
-TOTAL = {"quick": 10000, "thorough": 500000}
+TOTAL = {"quick": 12000, "thorough": 500000}
 CHUNK = 80
 
 
